@@ -98,7 +98,7 @@ theorem C03_fn_set_next_counterparty_revoke_num_panic (c : Chan) :
 theorem C03_fn_validator_set_next_counterparty_commit_num (f : String → Bool)
     (hf : f "policy-commitment-previous-revoked" = true) (c : Chan) (n pt info : Nat)
     (hr : c.cpRevoke + 2 ≤ Rs.U64_MAX) (hc : c.cpCommit + 1 ≤ Rs.U64_MAX) :
-    Validator.set_next_counterparty_commit_num f (toES c) (n + 1) pt info
+    Validator.set_next_counterparty_commit_num f () (toES c) (n + 1) pt info
       = if n + 1 < c.cpRevoke + (if n + 1 = 1 then 1 else 2) then .error (.err "policy-commitment-previous-revoked")
         else if n + 1 ≠ c.cpCommit ∧ n + 1 ≠ c.cpCommit + 1 then .error (.err "policy-commitment-previous-revoked")
         else if n + 1 = c.cpCommit + 1 then
@@ -147,8 +147,8 @@ theorem C03_fn_signCp_tail (c : Chan) (n pt info : Nat)
     (h0 : ¬ n > c.cpRevoke + 1) (h1 : ¬ (n + 1 = c.cpCommit ∧ c.curPt ≠ some pt))
     (h2 : ¬ (n + 1 = c.cpCommit ∧ c.curInfo ≠ some info)) :
     (signCp c n pt info true).out.res
-        = cls (Validator.set_next_counterparty_commit_num strict (toES c) (n + 1) pt info)
-    ∧ (∀ e, Validator.set_next_counterparty_commit_num strict (toES c) (n + 1) pt info = .ok e →
+        = cls (Validator.set_next_counterparty_commit_num strict () (toES c) (n + 1) pt info)
+    ∧ (∀ e, Validator.set_next_counterparty_commit_num strict () (toES c) (n + 1) pt info = .ok e →
           toES (signCp c n pt info true).c = e)
     ∧ ((signCp c n pt info true).out.res ≠ .ok → (signCp c n pt info true).c = c) := by
   rw [C03_fn_validator_set_next_counterparty_commit_num strict rfl c n pt info hr hc]
@@ -170,7 +170,7 @@ theorem C03_fn_signCp_tail (c : Chan) (n pt info : Nat)
 theorem C03_fn_validator_set_next_counterparty_revoke_num (f : String → Bool)
     (hf : f "policy-commitment-previous-revoked" = true) (c : Chan) (n : Nat)
     (hn : n + 3 ≤ Rs.U64_MAX) (hr : c.cpRevoke + 1 ≤ Rs.U64_MAX) :
-    Validator.set_next_counterparty_revoke_num f (toES c) (n + 1)
+    Validator.set_next_counterparty_revoke_num f () (toES c) (n + 1)
       = if n + 1 + 2 < c.cpCommit then .error (.err "policy-commitment-previous-revoked")
         else if n + 1 + 1 > c.cpCommit then .error (.err "policy-commitment-previous-revoked")
         else if n + 1 ≠ c.cpRevoke ∧ n + 1 ≠ c.cpRevoke + 1 then .error (.err "policy-commitment-previous-revoked")
@@ -208,8 +208,8 @@ theorem C03_fn_validator_set_next_counterparty_revoke_num (f : String → Bool)
 /-- whatever the policy filter, the two `assert`s of the setters stand behind the guards: `num = 0` never returns
     a state (a demoted `policy-other` only turns the refusal into a panic) -/
 theorem C03_fn_validator_zero_never_ok (f : String → Bool) (c : Chan) (pt info : Nat) (e : ES) :
-    Validator.set_next_counterparty_revoke_num f (toES c) 0 ≠ .ok e
-    ∧ Validator.set_next_counterparty_commit_num f (toES c) 0 pt info ≠ .ok e := by
+    Validator.set_next_counterparty_revoke_num f () (toES c) 0 ≠ .ok e
+    ∧ Validator.set_next_counterparty_commit_num f () (toES c) 0 pt info ≠ .ok e := by
   constructor
   · intro h
     unfold Validator.set_next_counterparty_revoke_num EnforcementState.set_next_counterparty_revoke_num at h
@@ -227,14 +227,14 @@ theorem C03_fn_validator_zero_never_ok (f : String → Bool) (c : Chan) (pt info
     · simp [Rs.policyErr, Rs.fail, hf, bind, Except.bind] at h
 
 -- non-vacuity: commit 4 / revoke 2 (two unrevoked commitments 2 and 3)
-example : Validator.set_next_counterparty_commit_num strict
+example : Validator.set_next_counterparty_commit_num strict ()
     (toES { slot := .ready, cpCommit := 4, cpRevoke := 2, curPt := some 13, prevPt := some 12 }) 6 14 1
     = .error (.err "policy-commitment-previous-revoked") := by
   simp [Validator.set_next_counterparty_commit_num, toES, Rs.uadd, Rs.U64_MAX, policyErr_strict]
-example : Validator.set_next_counterparty_revoke_num strict
+example : Validator.set_next_counterparty_revoke_num strict ()
     (toES { slot := .ready, cpCommit := 4, cpRevoke := 2, curPt := some 13, prevPt := some 12 }) 3
     = .ok (toES { slot := .ready, cpCommit := 4, cpRevoke := 3, curPt := some 13, prevPt := some 12 }) := by rfl
-example : Validator.set_next_counterparty_commit_num strict
+example : Validator.set_next_counterparty_commit_num strict ()
     (toES { slot := .ready, cpCommit := 4, cpRevoke := 3, curPt := some 13, prevPt := some 12 }) 5 14 1
     = .ok (toES { slot := .ready, cpCommit := 5, cpRevoke := 3, curPt := some 14, prevPt := some 13,
                   curInfo := some 1 }) := by rfl
